@@ -6,7 +6,9 @@ mod c02;
 mod c03;
 mod c04;
 mod c05;
+mod c06;
 mod c07;
+mod c17;
 mod fake;
 
 fn main() {
@@ -19,7 +21,9 @@ fn main() {
         "C03" => c03::run(&args),
         "C04" => c04::run(&args),
         "C05" => c05::run(&args),
+        "C06" => c06::run(&args),
         "C07" => c07::run(&args),
+        "C17" => c17::run(&args),
         other => {
             eprintln!("vl-core: unknown property {}", other);
             std::process::exit(2)
